@@ -21,6 +21,18 @@ NB == 64
 (* expected provenance pairs of a chain <<f, c1, .., c0>> *)
 ExpectedOrigin(ch) == [i \in 1..(Len(ch) - 1) |-> <<ch[1], ch[i + 1]>>]
 
+(* provenance: pairs (innermost filler, container_i) from the inside out; a lattice element is a copy *)
+(* of the lattice cell under a key invented by the converter (any number above the deck's cells)      *)
+KeyMatches(D, x, e) == IF IsMark(e) THEN x > MaxCellN(D) ELSE x = e
+OriginMatches(D, ch, origin) ==
+  /\ Len(origin) = Len(ch) - 1
+  /\ \A i \in 1..Len(origin) : KeyMatches(D, origin[i][1], ch[1]) /\ KeyMatches(D, origin[i][2], ch[i + 1])
+(* invented keys met along the chain: set of <<marker, key>> *)
+InventedKeys(ch, origin) ==
+  IF Len(origin) # Len(ch) - 1 THEN {}
+  ELSE { <<ch[i + 1], origin[i][2]>> : i \in { j \in 1..Len(origin) : IsMark(ch[j + 1]) } }
+       \cup (IF IsMark(ch[1]) THEN { <<ch[1], origin[i][1]>> : i \in 1..Len(origin) } ELSE {})
+
 (* per-trace analysis shared by the clauses: chains, skip flags and T4 owners of every probe point *)
 Analysis(r) ==
   LET D == r.deck  T == r.file  X == TLCEval(Ctx(T))
@@ -42,14 +54,18 @@ PointVerdict(D, T, A, k) ==
                 v == T.vols[PosOfVol(T, id)]
             IN IF Len(ch) = 1
                THEN (IF id = ch[1] THEN "ok" ELSE "wrongid")
-               ELSE (IF v.origin = ExpectedOrigin(ch) THEN "ok" ELSE "wrongprov")
+               ELSE (IF OriginMatches(D, ch, v.origin) THEN "ok" ELSE "wrongprov")
 
 OwnerVerdict(r, A) ==
   LET D == r.deck  T == r.file
       pv == TLCEval([k \in 1..A.n |-> PointVerdict(D, T, A, k)])
       kinds == { pv[k] : k \in 1..A.n } \ {"ok", "skip"}
       firstOf(kind) == CHOOSE k \in 1..A.n : pv[k] = kind /\ \A j \in 1..(k - 1) : pv[j] # kind
-  IN [bad |-> { <<kind, firstOf(kind)>> : kind \in kinds },
+      okdeep == { k \in 1..A.n : pv[k] = "ok" /\ Len(A.chains[k]) > 1 /\ Cardinality(A.own[k]) = 1 }
+      keys == UNION { InventedKeys(A.chains[k], T.vols[PosOfVol(T, CHOOSE x \in A.own[k] : TRUE)].origin) : k \in okdeep }
+      inconsistent == \E a, b \in keys : (a[1] = b[1]) # (a[2] = b[2])
+  IN [bad |-> { <<kind, firstOf(kind)>> : kind \in kinds }
+              \cup (IF inconsistent THEN {<<"lattice_keys_inconsistent", 0>>} ELSE {}),
       nowners |-> Cardinality({ A.chains[k] : k \in { j \in 1..A.n : pv[j] = "ok" /\ Live(D, A.chains[j]) } }),
       nchecked |-> Cardinality({ k \in 1..A.n : pv[k] # "skip" }),
       ndeep |-> Cardinality({ k \in 1..A.n : pv[k] = "ok" /\ Len(A.chains[k]) > 1 })]
@@ -113,7 +129,7 @@ CompoVerdict(r, A) ==
       chains == A.chains
       pts == { k \in 1..A.n : ~A.skip[k] /\ Live(D, chains[k]) /\ Cardinality(A.own[k]) = 1 }
       volOf == [k \in pts |-> CHOOSE id \in A.own[k] : TRUE]
-      cellAt(k) == CellOf(D, chains[k][1])
+      cellAt(k) == InnerCell(D, chains[k])
       info == TLCEval([k \in pts |-> CInfo(T, NameOfVol(T, volOf[k]))])
       bad(k) == LET c == cellAt(k)  i == info[k] IN
                 IF c.mat = 0 THEN (IF i.name = "m0" THEN "ok" ELSE "void_not_m0")
